@@ -24,6 +24,11 @@ through xtuml.ModelLoader, and whose MetaModel object the application may stop r
 on creating instances through the metaclasses / instances it kept.  D: every defaulted id is non-null, new in the
 metamodel, and one of the values of the generator the metamodel holds at that moment (the harness keeps the
 generator objects); a creation advances that generator by exactly the number of ids it defaulted.
+
+Family `twin` (D only, see _twin_case): two metamodels with the same classes in one process, with separate generators or
+sharing one generator object, swapping and sharing generators along the way.  D: a defaulted id comes from the current
+generator of the metamodel the instance is created in, is non-null and new; only that generator advances, by the
+number of defaulted ids; instances and loaded rows land in the metamodel addressed.
 """
 import itertools
 
@@ -40,6 +45,9 @@ RULE = ('(1) exhaustive: every interleaving of peek / next of length <= 9 (quick
         'application drops its reference to the MetaModel at a random point (only metaclasses and instances are kept, '
         'gc.collect()) and goes on through metaclass.new() / metaclass() / get_metaclass(inst).new() / '
         'get_metamodel(inst); generator j hands out 100000*j+1, +2, ...; '
+        '(4) two metamodels in one process (D only) with the same classes, separate generators or one shared generator '
+        'object, 4-14 ops of new (through metamodel / metaclass / call) / fresh generator / take over the other one\'s generator / '
+        'load short rows, in either metamodel; '
         'non-trivial = at least two instances with defaulted ids and one explicit argument; distinct = distinct op sequence')
 EXHAUSTIVE = {'quick': True, 'thorough': True}
 ASSUMPTIONS = ['READING of "never repeats within the metamodel": ids LEFT TO THEIR DEFAULT never repeat among themselves and are '
@@ -243,6 +251,42 @@ def _hist_case(r):
     return {'gen': 'user', 'start': 1, 'step': 1, 'fam': 'hist', 'ops': ops}
 
 
+def _twin_case(r):
+    """D-only family: TWO metamodels in one process that define the same classes (same kinds, same attribute names).  They
+    start with separate generators or SHARE one generator object; during the history either one gets a fresh generator
+    (`swapgen w`) or is given the other one's (`share w`); instances are created in either one through the metamodel, the
+    metaclass or the metaclass call, and short rows are loaded into either one.  Generator j hands out 100000*j + 1, +2, ...,
+    so the oracle knows for every defaulted id which generator it came from: it must be the CURRENT generator of the metamodel
+    the instance was created in, the value must be new, and no OTHER generator may have been advanced."""
+    attrs = []
+    for a in range(r.randint(0, 3)):
+        attrs.append(['a%d' % a, respell(r, r.choice(['INTEGER', 'STRING', 'UNIQUE_ID']))])
+    attrs.append(['id', respell(r, 'UNIQUE_ID')])
+    if r.random() < 0.4:
+        attrs.append(['z', respell(r, 'UNIQUE_ID')])
+    kinds = ['K0'] + (['K1'] if r.random() < 0.5 else [])
+    ops = []
+    for _ in range(r.randint(4, 14)):
+        w = r.randrange(2)
+        c = r.random()
+        if c < 0.6:
+            ops.append(['new', w, respell(r, r.choice(kinds)), r.choice(['m', 'mc', 'call'])])
+        elif c < 0.72:
+            ops.append(['swapgen', w])
+        elif c < 0.84:
+            ops.append(['share', w])
+        else:
+            rows = []
+            for _ in range(r.randint(1, 2)):
+                n = r.randint(0, len(attrs) - 1)
+                lits = []
+                for _, t in attrs[:n]:
+                    lits.append({'INTEGER': '3', 'STRING': "'s'", 'UNIQUE_ID': '%d' % r.randint(1, 9)}[t.upper()])
+                rows.append([respell(r, r.choice(kinds)), lits])
+            ops.append(['load', w, rows])
+    return {'gen': 'user', 'start': 1, 'step': 1, 'fam': 'twin', 'shared': r.random() < 0.5, 'kinds': kinds, 'attrs': attrs, 'ops': ops}
+
+
 def generate(ctx):
     depth = ctx.pick(9, 13)
     for spec in ({'gen': 'int'}, {'gen': 'uuid'}, {'gen': 'user', 'start': 7, 'step': 3}):
@@ -255,6 +299,9 @@ def generate(ctx):
     hr = ctx.rng.fork('hist')
     for i in range(ctx.pick(1500, 20000)):
         yield _hist_case(hr.fork(i))
+    tr = ctx.rng.fork('twin')
+    for i in range(ctx.pick(1200, 15000)):
+        yield _twin_case(tr.fork(i))
     rng = ctx.rng.fork('random')
     n = ctx.pick(6000, 60000)
     maxops = ctx.pick(14, 30)
@@ -441,9 +488,126 @@ def _run_hist(case):
             'key': 'hist/%r' % (case['ops'],), 'stats': stats, 'model_line': None}
 
 
+def _run_twin(case):
+    x = _x
+    import logging
+    logging.getLogger('xtuml.load').setLevel(logging.ERROR)
+    BASE = 100000
+    gens = []
+
+    def make():
+        j = len(gens)
+
+        class Counting(x.IdGenerator):
+            def __init__(self):
+                self.count = 0
+                self.number = j
+                x.IdGenerator.__init__(self)
+
+            def readfunc(self):
+                self.count += 1
+                return BASE * j + self.count
+        gens.append(Counting())
+        return gens[-1]
+
+    g0 = make()
+    cur = [g0, g0 if case['shared'] else make()]          # the oracle's view: the generator each metamodel holds now
+    ms = [x.MetaModel(cur[0]), x.MetaModel(cur[1])]
+    attrs = [tuple(a) for a in case['attrs']]
+    n_ids = sum(1 for a, t in attrs if t.upper() == 'UNIQUE_ID')
+    mcs = [dict((k.upper(), m.define_class(k, list(attrs))) for k in case['kinds']) for m in ms]
+    fails, seen = [], set()
+    stats = {'cases_twin': 1, 'twin_shared_start' if case['shared'] else 'twin_separate_start': 1}
+    checked = 0
+
+    def fail(sig, what, upto):
+        if len(fails) < 4:
+            fails.append({'sig': sig, 'what': '%s; two metamodels (0 and 1) with the classes %s %r, %s; history: %r'
+                          % (what, case['kinds'], case['attrs'], 'sharing one generator at the start' if case['shared']
+                             else 'with separate generators at the start', case['ops'][:upto + 1])})
+
+    def check_id(v, w, where, n):
+        nonlocal checked
+        checked += 1
+        j = cur[w].number
+        if v is None or isinstance(v, bool) or not isinstance(v, int) or v == 0:
+            fail('null-id', '%s: defaulted unique id is %r' % (where, v), n)
+            return
+        if not (BASE * j < v < BASE * (j + 1)):
+            fail('id-not-from-metamodel-generator', '%s: defaulted unique id %r was not handed out by the current generator of '
+                 'metamodel %d (generator number %d, range %d..%d)' % (where, v, w, j, BASE * j + 1, BASE * (j + 1) - 1), n)
+        if v in seen:
+            fail('id-repeats', '%s: defaulted unique id %r was already handed out' % (where, v), n)
+        seen.add(v)
+
+    for n, op in enumerate(case['ops']):
+        nm, w = op[0], op[1]
+        stats['op_' + nm] = stats.get('op_' + nm, 0) + 1
+        counts = [g.count for g in gens]
+        expect_draws = 0
+        if nm == 'swapgen':
+            cur[w] = make()
+            ms[w].id_generator = cur[w]
+            counts.append(cur[w].count)          # creating a generator reads its first value ahead
+        elif nm == 'share':
+            cur[w] = cur[1 - w]
+            ms[w].id_generator = cur[w]
+        elif nm == 'new':
+            mc = mcs[w][op[2].upper()]
+            inst = ms[w].new(op[2]) if op[3] == 'm' else (mc.new() if op[3] == 'mc' else mc())
+            if x.get_metaclass(inst) is not mc:
+                fail('instance-in-other-metamodel', 'new(%r) in metamodel %d created an instance of another metaclass' % (op[2], w), n)
+            expect_draws = n_ids
+            for a, t in attrs:
+                if t.upper() == 'UNIQUE_ID':
+                    check_id(inst.__dict__.get(a), w, 'new(%r) in metamodel %d, attribute %s' % (op[2], w, a), n)
+        elif nm == 'load':
+            before = dict((K, len(mc.storage)) for K, mc in mcs[w].items())
+            other_before = dict((K, len(mc.storage)) for K, mc in mcs[1 - w].items())
+            loader = x.ModelLoader()
+            loader.input('\n'.join('INSERT INTO %s VALUES (%s);' % (k, ', '.join(vs)) for k, vs in op[2]))
+            loader.populate(ms[w])
+            for K, mc in mcs[1 - w].items():
+                if len(mc.storage) != other_before[K]:
+                    fail('instance-in-other-metamodel', 'loading rows into metamodel %d created instances of %s in metamodel %d'
+                         % (w, K, 1 - w), n)
+            for K, mc in mcs[w].items():
+                rows = [vs for k, vs in op[2] if k.upper() == K]
+                made = list(mc.storage)[before[K]:]
+                if len(made) != len(rows):
+                    fail('load-instance-count', 'loading %d rows of %s created %d instances' % (len(rows), K, len(made)), n)
+                    continue
+                expect_draws += n_ids * len(rows)          # the loader creates with defaults first, then overwrites
+                for vs, inst in zip(rows, made):
+                    for pos, (a, t) in enumerate(attrs):
+                        if pos >= len(vs) and t.upper() == 'UNIQUE_ID':
+                            check_id(inst.__dict__.get(a), w, 'row (%s) of %s in metamodel %d, attribute %s left to its default'
+                                     % (', '.join(vs), K, w, a), n)
+        else:
+            raise ValueError(nm)
+        for j, g in enumerate(gens):
+            d = g.count - counts[j]
+            if g is cur[w] and nm in ('new', 'load'):
+                if d != expect_draws:
+                    fail('generator-not-advanced', '%s in metamodel %d: its generator (number %d) handed out %d values, %d unique ids '
+                         'were defaulted' % (nm, w, j, d, expect_draws), n)
+            elif d != 0:
+                fail('other-generator-advanced', '%s in metamodel %d advanced generator number %d by %d, which is not the '
+                     'generator of that metamodel (number %d)' % (nm, w, j, d, cur[w].number), n)
+        for ww in (0, 1):
+            if ms[ww].id_generator is not cur[ww]:
+                fail('generator-binding', 'after %s in metamodel %d, metamodel %d holds generator number %s, it was given number %d'
+                     % (nm, w, ww, getattr(ms[ww].id_generator, 'number', '?'), cur[ww].number), n)
+    both = len(set(o[1] for o in case['ops'] if o[0] in ('new', 'load'))) == 2
+    return {'obs': [], 'd_fail': fails, 'nontrivial': checked >= 2 and both,
+            'key': 'twin/%r/%r/%r' % (case['shared'], case['attrs'], case['ops']), 'stats': stats, 'model_line': None}
+
+
 def run_impl(case):
     if case.get('fam') == 'hist':
         return _run_hist(case)
+    if case.get('fam') == 'twin':
+        return _run_twin(case)
     x = _x
     uuid_log = []
     gen = _make_generator(case, uuid_log)
